@@ -712,6 +712,43 @@ func scenarios(rng *rand.Rand, flags string) []core.Case {
 			g.cmpq()
 		})
 	}
+	// C08: an account that lives only in the acctInfo cache (created in a rolled-back bracket), then a FAILING
+	// NextAddresses / ExtendAddresses on it inside a bracket that is committed anyway: putChainedAddress has written
+	// the address row (putAddress) before it finds the account row missing, so an orphan address row is committed;
+	// the running manager resolves it through the stale account, a restarted one answers ErrAccountNotFound.
+	for _, how := range []string{"commit", "rollback", "commitfail"} {
+		for _, mut := range []string{"next sc=1 acct=1 n=2 int=0", "extend sc=1 acct=1 last=1 int=1"} {
+			how, mut := how, mut
+			mk("scn-c08-orphan-row-"+how, func(g *gen) {
+				g.create(5, 1, []int{1})
+				g.add("unlock p=1")
+				g.begin()
+				g.add("newacct sc=1 name=fresh wo=0 expect=1")
+				g.add("q.props sc=1 acct=1")
+				g.accts["1/1"] = true
+				g.names["1/fresh"] = true
+				g.end("rollback")
+				g.noteKeys(1, 1, 0, 0, 3)
+				g.noteKeys(1, 1, 1, 0, 3)
+				g.begin()
+				g.add("%s", mut)
+				g.add("q.address sc=1 key=c:1:0:0")
+				g.add("q.address sc=1 key=c:1:1:0")
+				g.end(how)
+				g.add("markused sc=1 key=c:1:0:0")
+				g.add("markused sc=1 key=c:1:1:0")
+				g.cmpq()
+				g.add("newacct sc=1 name=fresh wo=0 expect=1")
+				g.cmpq()
+				g.add("nextcmp sc=1 acct=1 int=0")
+				g.add("nextcmp sc=1 acct=1 int=1")
+				g.cmpq()
+				g.probes()
+				g.add("reopen pub=5")
+				g.cmpq()
+			})
+		}
+	}
 	// C08: every eager mutator inside a rolled-back / failed-commit / committed bracket
 	muts := []func(g *gen){
 		func(g *gen) { g.add("next sc=1 acct=0 n=1 int=1"); g.noteKeys(1, 0, 1, 0, 2) },
